@@ -12,7 +12,7 @@ path   := `<n> step^n`
 
 resolve <sig> <P|R> <sel> <path>                → `ok <sym|-> <disp> <base> <basic>` | `err` | `free`
 accept-resolve <sig> <P|R> <sel> <path> => <ok <sym|-> <disp> <base> <basic> <asmtext> | err | panic>
-argsize <sig>                                   → `<params bytes> <results bytes> <total>`
+argsize <sig>                                   → `<total bytes>`
 accept-argsize <sig> <total>                    → ok | bad-argsize want <n>
 accept-text <sig> <$frame-args>                 → ok | …
 sizes <type>                                    → `<size> <align> <k> <off>^k`
@@ -172,7 +172,7 @@ def handle : Handler
     | _ => none
   | "argsize" :: rest => do
     let (s, _) ← sigTok rest
-    some (joinSp [toString s.paramsTuple.size, toString s.resultsTuple.size, toString s.bytes])
+    some (toString s.bytes)
   | "accept-argsize" :: rest => do
     let (s, rest) ← sigTok rest
     let (n, _) ← natTok rest
